@@ -15,12 +15,137 @@ import (
 func init() {
 	reg("TOTAL-1", ruleTotal1)
 	reg("SIG-1", ruleSig1)
+	reg("SETORD-1", ruleSetOrd)
+	reg("IDENT-1", ruleIdent1)
+}
+
+// IDENT-1: per kind, equality, map-key identity and rendering must induce the same identity.
+func ruleIdent1(c *Ctx) {
+	c.R.Rule("IDENT-1", 5, "per primitive kind the operations used by value equality, by map-key construction and by rendering induce the same identity: bool ==/FormatBool, str ==/Quote (injective), num tolerance/exact decimal text (the property excludes the tolerance band), time: equality by instant requires keys and text derived from the instant")
+	arm := func(sp, fn, kind string) (string, token.Pos) {
+		fd := c.FuncDecl(sp, fn)
+		if fd == nil {
+			c.R.Anchor(sp + "." + fn)
+			return "", token.NoPos
+		}
+		var sw *ast.SwitchStmt
+		inspectNoLit(fd.Body, func(x ast.Node) bool {
+			if s, ok := x.(*ast.SwitchStmt); ok && sw == nil && s.Tag != nil && strings.HasSuffix(src(s.Tag), "Kind") {
+				sw = s
+			}
+			return true
+		})
+		if sw == nil {
+			return "", fd.Pos()
+		}
+		cc := c.switchCasesByConst(sw)["types."+kind]
+		if cc == nil {
+			return "", sw.Pos()
+		}
+		return sx(cc.Body), cc.Pos()
+	}
+	type site struct{ sp, fn string }
+	renderers := []site{{"val", "Val.Key"}, {"val", "stringify"}, {"fun", "stringify0"}}
+	// bool / str
+	if s, p := arm("val", "Equals", "KBool"); s != "" {
+		c.R.Check(strings.Contains(s, "Op:=="), "val.Equals", "bool compared with ==", p, "exact", "bool equality is not ==")
+	}
+	if s, p := arm("val", "Equals", "KStr"); s != "" {
+		c.R.Check(strings.Contains(s, "Op:=="), "val.Equals", "str compared with ==", p, "exact", "string equality is not ==")
+	}
+	for _, r := range renderers[:2] {
+		if s, p := arm(r.sp, r.fn, "KStr"); s != "" {
+			c.R.Check(strings.Contains(s, "(SelectorExpr strconv Sel:Quote)"), r.sp+"."+r.fn, "str rendered by strconv.Quote (injective)", p, "distinct strings never render alike", "strings are not rendered/keyed through an injective quoting")
+		}
+		if s, p := arm(r.sp, r.fn, "KBool"); s != "" {
+			c.R.Check(strings.Contains(s, "Sel:FormatBool"), r.sp+"."+r.fn, "bool rendered by FormatBool", p, "true/false", "bools are not rendered by FormatBool")
+		}
+	}
+	// time
+	eq, _ := arm("val", "Equals", "KTime")
+	byInstant := strings.Contains(eq, "Sel:Equal)")
+	for _, r := range renderers {
+		s, p := arm(r.sp, r.fn, "KTime")
+		if s == "" {
+			continue
+		}
+		usesWallText := strings.Contains(s, "Sel:String)") && !strings.Contains(s, "Unix") && !strings.Contains(s, "UTC")
+		if byInstant && usesWallText {
+			c.R.Bad(r.sp+"."+r.fn, "time identity agrees with equality", p, "values are equal when they denote the same instant (time.Time.Equal) but are keyed/rendered with time.Time.String(), which includes the zone, the wall-clock reading and the monotonic clock: one instant in two zones, or time.Now() vs time.Now().Round(0), are == yet render differently and select different map entries")
+		} else {
+			c.R.OK(r.sp+"."+r.fn, "time identity agrees with equality", p, "rendering is derived from what equality compares")
+		}
+	}
+}
+
+// SETORD-1: union / intersect / diff keep the first operand's order (then, for union, the second's).
+func ruleSetOrd(c *Ctx) {
+	c.R.Rule("SETORD-1", 4, "the set helpers are order preserving: each result is built by ranging over the first operand's insertion-ordered key list (union: then the second operand's), the operands are never swapped or reassigned, and valSetOf records keys in first-occurrence order")
+	for _, h := range []struct {
+		fn    string
+		loops []int
+	}{{"union", []int{0, 1}}, {"intersect", []int{0}}, {"diff", []int{0}}} {
+		fd := c.FuncDecl("fun", h.fn)
+		if fd == nil {
+			c.R.Anchor("fun." + h.fn)
+			continue
+		}
+		var params []types.Object
+		for _, f := range fd.Type.Params.List {
+			for _, n := range f.Names {
+				if typeStr(c.typeOf(f.Type)) == "*fun.valSet" {
+					params = append(params, c.objOf(n))
+				}
+			}
+		}
+		reassigned := false
+		inspectNoLit(fd.Body, func(x ast.Node) bool {
+			if as, ok := x.(*ast.AssignStmt); ok {
+				for _, l := range as.Lhs {
+					for _, p := range params {
+						if c.objOf(l) == p {
+							reassigned = true
+						}
+					}
+				}
+			}
+			return true
+		})
+		var ranged []types.Object
+		for _, st := range fd.Body.List {
+			if r, ok := st.(*ast.RangeStmt); ok {
+				if se, ok := unparen(r.X).(*ast.SelectorExpr); ok && se.Sel.Name == "link" {
+					ranged = append(ranged, c.objOf(se.X))
+				} else {
+					ranged = append(ranged, nil)
+				}
+			}
+		}
+		ok := !reassigned && len(params) == 2 && len(ranged) == len(h.loops)
+		if ok {
+			for i, pi := range h.loops {
+				if ranged[i] != params[pi] {
+					ok = false
+				}
+			}
+		}
+		c.R.Check(ok, "fun."+h.fn, "result follows the first operand's order", fd.Pos(), "ranges over x.link (then y.link for union); operands not reassigned", "the result is not built in the first operand's insertion order (operands swapped/reassigned or another iteration order): "+h.fn+"([3,2,1],[1,2]) changes element order")
+	}
+	if fd := c.FuncDecl("fun", "valSetOf"); fd != nil {
+		s := sx(fd.Body)
+		ok := strings.Contains(s, "(RangeStmt Key:_ Value:v Tok::= xs Body:") && strings.Contains(s, "(IfStmt Init:(AssignStmt Lhs:[_ ok] Tok::= Rhs:[(IndexExpr m Index:hash)]) Cond:(UnaryExpr Op:! ok)") && strings.Contains(s, "Rhs:[(CallExpr Fun:append Args:[l hash])]")
+		c.R.Check(ok, "fun.valSetOf", "keys recorded at first occurrence, in list order", fd.Pos(), "range xs; if !seen { m[hash] = v; l = append(l, hash) }", "valSetOf no longer records each distinct element once, in list order")
+		byString := len(c.callsTo(fd.Body, "val.Val.String")) == 1
+		c.R.Check(byString, "fun.valSetOf", "elements keyed by their canonical rendering", fd.Pos(), "hash := v.String(): membership agrees with rendering (C18)", "set membership is not keyed by Val.String")
+	} else {
+		c.R.Anchor("fun.valSetOf")
+	}
 }
 
 // documented partial operations (one symbol each).
 var partialTable = map[string]string{
-	"fun.MOD_NUM_NUM$init|integer %":       "documented: modulo by zero fails",
-	"fun.MATCH_STR_STR$init|panic":         "documented: an invalid regular expression fails",
+	"fun.MOD_NUM_NUM$init|integer %": "documented: modulo by zero fails",
+	"fun.MATCH_STR_STR$init|panic":   "documented: an invalid regular expression fails",
 }
 
 type builtinDef struct {
